@@ -250,6 +250,12 @@ def finish(report, level='model_checking', extra=None):
         path = os.path.join(rdir, digest + '.json')
         with open(path, 'w') as f:
             json.dump(body, f, indent=1, sort_keys=True)
+        script = (v.get('replay') or {}).get('script')
+        if script:
+            # plain script that replays the history with diskcache only
+            with open(path[:-5] + '.py', 'w') as f:
+                f.write('# %s\n%s\n' % (str(v.get('message'))[:300]
+                                         .replace('\n', ' '), script))
         emitted[key] = {'path': path, 'count': 1, 'message': v.get('message')}
     for n, (key, info) in enumerate(emitted.items()):
         print('VIOLATION property=%s replay=%s' % (prop, info['path']))
